@@ -20,7 +20,7 @@
    truths against the enumerated CPDAG in the correspondence run.  PDAG.to_dag is proved correct and complete for
    every extendable graph, and the DAG return type is reduced to PDAG exactness (C12_dag_member_if_cpdag_exact). *)
 From Coq Require Import List Bool Arith.
-From PV Require Import Base.Reach Base.Graph C08.Model C08.Spec C12.Model C12.Spec C12.FiniteDefs C12.Finite C12.ToDag C12.VPhase C12.Skeleton C12.DorTarsi C12.SpecBridge C12.Member C12.ModelFix C12.Refuted6 C12.Orient C12.Session.
+From PV Require Import Base.Reach Base.Graph C08.Model C08.Spec C12.Model C12.Spec C12.FiniteDefs C12.Finite C12.ToDag C12.VPhase C12.Skeleton C12.DorTarsi C12.SpecBridge C12.Member C12.ModelFix C12.Refuted6 C12.Orient C12.Session C12.ProofsMeek C12.ProofsMeekModel.
 Import ListNotations.
 
 (* [U] skeleton phase, every DAG, every variant (orig / stable / parallel), every node order [vars] (a duplicate-free
@@ -216,3 +216,34 @@ Theorem C12_estimate_no_cross_call_state : forall before c after d,
   nth (length before) (session (before ++ c :: after)) d = run_call c.
 Proof. exact session_no_cross_call_state. Qed.
 Print Assumptions C12_estimate_no_cross_call_state.
+
+(* ---------------------------------------------------------------- towards completeness of the propagation rules *)
+(* [U] _partial: the coded fix-point loop stops only in a state CLOSED under the three rules (no instance of rule 2 /
+   Meek R1, rule 3 / R2 with directed paths of any length, rule 4 / R3 is left), and in that state MEEK'S LEMMA 1 holds:
+   a -> b directed and b - c undirected imply a -> c directed.  For every skeleton and separating sets that are the
+   truth's (skeleton_ok), every DAG, node order and set order.  The proof is the induction over the order in which
+   edges were oriented (ProofsMeek.Hist: the loop is shown to extend a history of justified orientations). *)
+Theorem C12_rules_closed_and_meek_lemma1_partial : forall g vars sord E seps A,
+  wf_graph g -> acyclic g -> NoDup vars -> (forall v, In v vars <-> In v (nodes g)) ->
+  skeleton_ok g vars E seps -> skeleton_to_pdag vars sord E seps = Some A ->
+  closed g vars A /\ (forall a b c, Dir A a b -> Und A b c -> Dir A a c).
+Proof. exact skeleton_to_pdag_closed_lemma1. Qed.
+Print Assumptions C12_rules_closed_and_meek_lemma1_partial.
+
+(* [U] _partial, end to end for PC with an exact oracle, and the chain-component form: a directed parent of one node
+   of an undirected component is a directed parent of every node of the component (so no directed edge joins two
+   nodes of one component).
+   MISSING for C12_cpdag_exact for all n: (1) the undirected components are chordal (a chordless undirected cycle
+   would contain a sink of the truth, i.e. an unshielded collider, which phase 1 directs); (2) the re-orientation
+   lemma: an undirected graph with an acyclic collider-free orientation (the truth's) has, for each edge, such an
+   orientation directing it the other way (perfect elimination orders / two simplicial vertices); (3) glueing: the
+   directed part plus acyclic collider-free orientations of the components is a member of the class (acyclic and
+   no new unshielded collider by the statement below).  (1)-(3) give: every undirected edge of the result is
+   reversible, i.e. with C12_pdag_sound_partial the result is the CPDAG. *)
+Theorem C12_meek_component_parents_partial : forall g vars sord vr maxc A,
+  wf_graph g -> acyclic g -> NoDup vars -> (forall v, In v vars <-> In v (nodes g)) ->
+  (forall y, In y (nodes g) -> indeg g y <= maxc) ->
+  pc_pdag vr (dsep_oracle g) maxc vars sord = Some A ->
+  forall a b c, Dir A a b -> upath A b c -> Dir A a c /\ a <> c.
+Proof. exact pc_pdag_component_parents. Qed.
+Print Assumptions C12_meek_component_parents_partial.
